@@ -40,6 +40,8 @@ ASSUMPTIONS = [
     "MockRequest (the real webhook registry of Home Assistant is used)",
     "filter expressions do not suspend and do not mutate their variables",
     "json.loads / request.json() / request.post() results are parameters of the model",
+    "no keyword (event data key, decorator kwargs key) equals a parameter name of pyscript's own call chain - the model "
+    "has no such failure; findings C08-F2 / C08-F3 are demonstrated by oracle-only witness cases",
 ]
 TRUSTED = ["harness/run_C08.py (scenario generator, observation, canonicaliser, Python oracle)",
            "harness/ha_env.py + vclock.py (Home Assistant test instance on a virtual clock)",
@@ -61,6 +63,8 @@ def val_sx(v):
         return ["s", v]
     if isinstance(v, dict):
         return ["d"] + [[k, val_sx(x)] for k, x in v.items()]
+    if isinstance(v, list):
+        return ["l"] + [val_sx(x) for x in v]
     raise TypeError(f"unsupported value {v!r}")
 
 
@@ -255,7 +259,8 @@ def gen_occurrence(rng, d, aim):
             payload = asg["payload"]
         else:
             payload = rng.choice(["on", "5", '{"a": 1, "b": "q"}', '{"a": 2}', '{"state": "on"}', '"s"', "not json {", "",
-                                  "null", "7"])
+                                  "null", "7", "[1, 2]", "[]", '{"a": {"b": 1}}', '{"a": [1, {"c": null}]}', "true", "-3",
+                                  " 5 ", "{", "\u00e9t\u00e9 \u2603"])
         qos = asg.get("qos", rng.choice([0, 0, 1, 2]))
         qos = min(2, max(0, qos if isinstance(qos, int) else 0))
         retain = bool(asg["retain"]) if "retain" in asg else rng.random() < 0.3
@@ -269,7 +274,8 @@ def gen_occurrence(rng, d, aim):
         if "payload" in asg:
             return ["w", d["key"], True, {"a": 1} if asg["payload"] else {}, []]
         if rng.random() < 0.5:
-            return ["w", d["key"], True, rng.choice([{"a": 1, "k": "v"}, {"b": "2"}, {}, 5, {"a": 2, "b": 1}]), []]
+            return ["w", d["key"], True, rng.choice([{"a": 1, "k": "v"}, {"b": "2"}, {}, 5, {"a": 2, "b": 1}, [1, {"a": 2}],
+                                                      {"a": {"b": 1}}, "s", None, {"k": [1, 2]}]), []]
         return ["w", d["key"], False, None,
                 [[rng.choice(["a", "b", "k"]), rng.choice(["1", "2", "v"])] for _ in range(rng.randint(0, 4))]]
     data = []
@@ -282,11 +288,64 @@ def gen_occurrence(rng, d, aim):
         data.append(["trigger_type", "zzz"])
     if rng.random() < 0.05:
         data.append(["context", 7])
+    if rng.random() < 0.06:
+        data.append(["event_type", "fake"])
+    if rng.random() < 0.06:
+        data.append([rng.choice(["class", "lambda", "None_", "data", "kwargs"]), rng.choice([1, "k"])])
     return ["e", d["key"], data]
 
 
+def keys_present(funcs, kind):
+    return sorted({d["key"] for f in funcs for d in f["decs"] if d["kind"] == kind})
+
+
+# keys that are prefixes of each other, upper case, unicode, blanks, empty topic segments, wildcards in every position
+EXOTIC = {"e": {"e1": "e0x", "e2": "\u00c9v\u00e9n t/\u00fc", "e0": "e0"},
+          "m": {"t/a": "t//a", "t/+": "+/a/#", "u": "#"},
+          "w": {"h0": "h", "h1": "h1", "h2": "h\u00f6 2", "h3": "H1"}}
+
+
+def exotic_keys(sc):
+    sc = json.loads(json.dumps(sc))
+    for f in sc["funcs"]:
+        for d in f["decs"]:
+            d["key"] = EXOTIC[d["kind"]].get(d["key"], d["key"])
+    for op in sc["ops"]:
+        if op[0] == "e":
+            op[1] = EXOTIC["e"].get(op[1], op[1])
+        elif op[0] == "m":
+            if op[2] == op[1]:
+                op[2] = EXOTIC["m"].get(op[2], op[2])
+            op[1] = EXOTIC["m"].get(op[1], op[1])
+        elif op[0] in ("w", "wbad"):
+            op[1] = EXOTIC["w"].get(op[1], op[1])
+    return sc
+
+
+def event_types_of(p):
+    ts = set(OUT_TYPES) | set(EV_TYPES)
+    for f in p["funcs"]:
+        for d in f["decs"]:
+            if d["kind"] == "e":
+                ts.add(d["key"])
+    for op in p["ops"]:
+        if op[0] == "e":
+            ts.add(op[1])
+    return ts
+
+
+def hook_methods(p):
+    """webhook id -> allowed request methods (HA: the registration's; pyscript's default is POST, PUT)"""
+    out = {}
+    for f in p["funcs"]:
+        for d in f["decs"]:
+            if d["kind"] == "w" and d["key"] not in out:
+                out[d["key"]] = set(d.get("methods") or ["POST", "PUT"])
+    return out
+
+
 def gen_scenario(rng, tier, search):
-    nf = rng.choice([1, 1, 2, 2, 3])
+    nf = rng.choice([1, 1, 2, 2, 3, 3, 4])
     total = rng.choice([1, 2, 3, 3, 4, 4])
     total = max(total, nf)
     sizes = [1] * nf
@@ -320,7 +379,21 @@ def gen_scenario(rng, tier, search):
                 kwargs.append(["_d", tag])
             if kwargs and rng.random() < 0.35:
                 kwargs.append([rng.choice(["x", "extra", "trigger_type", "payload"]), rng.choice([99, "kw"])])
-            decs.append({"kind": kind, "key": key, "filt": filt, "kwargs": kwargs})
+            dec = {"kind": kind, "key": key, "filt": filt, "kwargs": kwargs}
+            # boundary values of the decorator arguments
+            if not kwargs and rng.random() < 0.25:
+                dec["kwargs_empty"] = True                      # kwargs={}
+            if kwargs and rng.random() < 0.2:
+                kwargs.append([rng.choice(["extra", "x", "event_type", "context"]), None])   # None values / reserved names
+            if filt is not None and rng.random() < 0.2:
+                dec["multiline"] = True
+            if kind == "m" and rng.random() < 0.35:
+                dec["encoding"] = rng.choice(["utf-8", "latin-1", "utf-16"])
+            if kind == "w" and not shared_hook and rng.random() < 0.5:
+                dec["methods"] = rng.choice([["GET"], ["HEAD", "POST"], ["PUT"], ["GET", "HEAD", "POST", "PUT"], ["POST"]])
+            if kind == "w" and rng.random() < 0.4:
+                dec["local_only"] = rng.random() < 0.5
+            decs.append(dec)
             tag += 1
         emits = []
         if not sink:
@@ -348,8 +421,17 @@ def gen_scenario(rng, tier, search):
             ops.append(gen_occurrence(rng, d, aim=d["filt"] is not None and rng.random() < 0.65))
         if not burst and rng.random() < 0.5:
             ops.append(["settle", rng.choice([0, 0, 0.3, 1, 3])])
+    for op in ops:
+        if op[0] == "w" and rng.random() < 0.45:
+            op.append(rng.choice(["POST", "PUT", "GET", "HEAD", "post", "DELETE"]))      # request method
+            op.append(rng.choice([None, "q=1&a=9"]))                                     # query string (ignored)
+    if keys_present(funcs, "w") and rng.random() < 0.2:
+        ops.insert(rng.randrange(len(ops) + 1), ["wbad", rng.choice(keys_present(funcs, "w"))])   # JSON type, empty body
     takes = [rng.randrange(0, 6) for _ in range(8)]
-    return {"funcs": funcs, "ops": ops, "takes": takes}
+    sc = {"funcs": funcs, "ops": ops, "takes": takes}
+    if rng.random() < 0.15:
+        sc = exotic_keys(sc)
+    return sc
 
 
 def _dfunc(name, decs):
@@ -412,6 +494,49 @@ DIRECTED = [
 ]
 
 
+DIRECTED += [
+    # four functions on one key, a burst of six messages: the third and later ones must all arrive, in order
+    {"funcs": [_dfunc(f"f{i}", [_ddec("e", "e0", None if i % 2 else ["cmp", "ne", "x", "-", 2], i)]) for i in range(4)],
+     "ops": [["e", "e0", [["x", i]]] for i in range(6)], "takes": [0]},
+    # keys: prefixes of each other, upper case, unicode, blanks, empty segments, wildcards
+    exotic_keys({"funcs": [_dfunc("f0", [_ddec("e", "e0", None, 0), _ddec("e", "e1", None, 1), _ddec("e", "e2", None, 2)]),
+                           _dfunc("f1", [_ddec("m", "t/a", None, 3), _ddec("m", "t/+", ["cmp", "eq", "topic", "-", "+/a/#"], 4),
+                                         _ddec("m", "u", None, 5)]),
+                           _dfunc("f2", [_ddec("w", "h0", None, 6)]), _dfunc("f3", [_ddec("w", "h3", None, 7)])],
+                 "ops": [["e", "e0", []], ["e", "e1", []], ["e", "e2", [["x", "\u00fc"]]], ["e", "E0", []], ["e", "e0x0", []],
+                         ["m", "t/a", "t/a", "1", 0, False], ["m", "t/+", "t/+", "[1]", 0, False], ["m", "u", "u", "", 0, False],
+                         ["w", "h0", True, {"a": 1}, []], ["w", "h3", True, {"a": 2}, []], ["w", "h1", True, {}, []]],
+                 "takes": [0]}),
+    # decorator argument boundaries: kwargs={}, None values, reserved names, encodings, methods, local_only, multi-line filter
+    {"funcs": [_dfunc("f0", [dict(_ddec("e", "e0", ["cmp", "gt", "x", "-", 1], 0), multiline=True,
+                                   kwargs=[["_d", 0], ["event_type", None], ["context", "kw"]]),
+                             dict(_ddec("m", "u", None, 1), encoding="latin-1")]),
+               _dfunc("f1", [{"kind": "e", "key": "e0", "filt": None, "kwargs": [], "kwargs_empty": True}]),
+               _dfunc("f2", [dict(_ddec("w", "h0", None, 2), methods=["GET", "HEAD"], local_only=False)]),
+               _dfunc("f3", [dict(_ddec("w", "h1", None, 3), local_only=True)])],
+     "ops": [["e", "e0", [["x", 5], ["event_type", "fake"], ["class", 1]]], ["e", "e0", [["x", 0]]],
+             ["m", "u", "u", "\u00e9", 1, True],
+             ["w", "h0", True, {"a": 1}, [], "GET", "q=1"], ["w", "h0", True, {"a": 2}, [], "POST", None],
+             ["w", "h0", False, None, [["a", "1"]], "HEAD", None], ["w", "h0", True, {"a": 3}, [], "get", None],
+             ["w", "h1", True, {"a": 4}, [], "PUT", "a=9"], ["w", "h1", True, {"a": 5}, [], "GET", None],
+             ["wbad", "h1"], ["w", "h1", False, None, [], "POST", None]],
+     "takes": [0]},
+]
+
+
+# keyword names that collide with parameters of pyscript's own call chain
+INTERNAL_A = {"self", "func", "func_name", "ast_ctx"}                                      # AstEval.call_func / EvalFunc.call
+INTERNAL_B = {"func", "ast_ctx", "task_unique", "task_unique_func", "hass_context"}        # legacy do_func_call
+ORACLE_ONLY = [
+    {"funcs": [_dfunc("f0", [_ddec("e", "e0", None, 0)])],
+     "ops": [["e", "e0", [["x", 1]]], ["e", "e0", [["self", 1]]], ["settle", 0.5], ["e", "e0", [["x", 2]]]], "takes": [0],
+     "oracle_only": True},
+    {"funcs": [_dfunc("f0", [_ddec("e", "e0", None, 0)])],
+     "ops": [["e", "e0", [["x", 1]]], ["e", "e0", [["func", 1]]], ["settle", 0.5], ["e", "e0", [["x", 2]]],
+             ["e", "e0", [["x", 3]]]], "takes": [0], "oracle_only": True},
+]
+
+
 def gen_cases(rng, tier, search):
     n = {"quick": 130, "thorough": 2000}[tier]
     if search:
@@ -429,6 +554,11 @@ def gen_cases(rng, tier, search):
             p["legacy"] = legacy
             cases.append(Case(p, None, tags=("legacy" if legacy else "new", "witness")))
     if not search:
+        for sc in ORACLE_ONLY:
+            for legacy in (True, False):
+                p = json.loads(json.dumps(sc))
+                p["legacy"] = legacy
+                cases.append(Case(p, None, tags=("legacy" if legacy else "new", "witness", "oracle-only")))
         for sc in DIRECTED:
             for legacy in (True, False):
                 p = json.loads(json.dumps(sc))
@@ -452,9 +582,18 @@ def dec_src(d):
     name = {"e": "event_trigger", "m": "mqtt_trigger", "w": "webhook_trigger"}[d["kind"]]
     args = [repr(d["key"])]
     if d["filt"] is not None:
-        args.append(repr(filt_src(d["filt"])))
-    if d["kwargs"]:
+        src = filt_src(d["filt"])
+        if d.get("multiline"):
+            src = "(\n  " + src + "\n)"            # a filter text that spans several lines
+        args.append(repr(src))
+    if d["kwargs"] or d.get("kwargs_empty"):
         args.append("kwargs={" + ", ".join(f"{k!r}: {v!r}" for k, v in d["kwargs"]) + "}")
+    if d.get("encoding") is not None:
+        args.append(f"encoding={d['encoding']!r}")
+    if d.get("methods") is not None:
+        args.append(f"methods={list(d['methods'])!r}")
+    if d.get("local_only") is not None:
+        args.append(f"local_only={d['local_only']!r}")
     return f"@{name}({', '.join(args)})"
 
 
@@ -510,9 +649,12 @@ def run_scenario(p):
     subs = []          # (topic, handler) recorded from mqtt.async_subscribe
     started_order = []
 
+    encs = []
+
     async def fake_subscribe(hass, topic, handler, encoding="utf-8", qos=0):
         ent = (topic, handler)
         subs.append(ent)
+        encs.append([topic, encoding])
 
         def rm():
             if ent in subs:
@@ -531,11 +673,13 @@ def run_scenario(p):
         from custom_components.pyscript.webhook import Webhook
         hass = env.hass
         seq = []
+        types = event_types_of(p)
+        allowed = hook_methods(p)
 
         @callback
         def lis(ev):
             t = ev.event_type
-            if t in EV_TYPES or t in OUT_TYPES:
+            if t in types:
                 seq.append(("ev", env.now(), t, dict(ev.data), ev.context.id, ev.context.parent_id))
             elif t == "state_changed" and ev.data.get("entity_id", "").startswith("pyscript.out_"):
                 ns = ev.data.get("new_state")
@@ -563,7 +707,7 @@ def run_scenario(p):
             obs["tab"] = {"e": {k: len(v) for k, v in Event.notify.items()},
                           "m": {k: len(v) for k, v in Mqtt.notify.items()},
                           "w": {k: len(v) for k, v in Webhook.notify.items()}}
-            obs["listeners"] = {k: v for k, v in hass.bus.async_listeners().items() if k in EV_TYPES + OUT_TYPES}
+            obs["listeners"] = {k: v for k, v in hass.bus.async_listeners().items() if k in types}
             obs["subs"] = sorted(t for t, _ in subs)
             obs["hooks"] = sorted(hass.data.get("webhook", {}).keys())
         else:
@@ -571,13 +715,16 @@ def run_scenario(p):
             mq = {}
             for t, _ in subs:
                 mq[t] = mq.get(t, 0) + 1
-            obs["tab"] = {"e": {k: lst.get(k, 0) for k in EV_TYPES + OUT_TYPES}, "m": mq,
+            obs["tab"] = {"e": {k: lst.get(k, 0) for k in types}, "m": mq,
                           "w": {k: 1 for k in hass.data.get("webhook", {}).keys()}}
             obs["start_order"] = list(started_order)
             live = {}
             for dm in g.dms:
                 live[dm.func_name] = dm.status.value
             obs["dm_status"] = live
+        obs["encodings"] = [list(e) for e in encs]
+        obs["hooks_cfg"] = {k: [v.get("local_only"), sorted(v.get("allowed_methods") or [])]
+                            for k, v in hass.data.get("webhook", {}).items()}
         # ---- the occurrences
         for op in p["ops"]:
             if op[0] == "e":
@@ -590,15 +737,23 @@ def run_scenario(p):
                     if t == sub:
                         hass.async_run_hass_job(HassJob(h), msg)
             elif op[0] == "w":
-                _, wid, is_json, jbody, form = op
-                seq.append(("w", env.now(), wid, is_json, jbody, form))
+                _, wid, is_json, jbody, form = op[:5]
+                method = op[5] if len(op) > 5 else "POST"
+                query = op[6] if len(op) > 6 else None
+                # Home Assistant hands the request over only for an allowed method of a registered id
+                if wid not in allowed or method in allowed[wid]:
+                    seq.append(("w", env.now(), wid, is_json, jbody, form))
                 if is_json:
-                    req = MockRequest(json.dumps(jbody).encode(), "test", method="POST",
-                                      headers={"Content-Type": "application/json"})
+                    req = MockRequest(json.dumps(jbody).encode(), "test", method=method,
+                                      headers={"Content-Type": "application/json"}, query_string=query)
                 else:
-                    req = MockRequest("&".join(f"{k}={v}" for k, v in form).encode(), "test", method="POST",
-                                      headers={"Content-Type": "application/x-www-form-urlencoded"})
+                    req = MockRequest("&".join(f"{k}={v}" for k, v in form).encode(), "test", method=method,
+                                      headers={"Content-Type": "application/x-www-form-urlencoded"}, query_string=query)
                 hass.async_create_task(webhook.async_handle_webhook(hass, wid, req))
+            elif op[0] == "wbad":
+                # JSON content type with an empty body: the payload cannot be built, nothing is handed to a function
+                req = MockRequest(b"", "test", method="POST", headers={"Content-Type": "application/json"})
+                hass.async_create_task(webhook.async_handle_webhook(hass, op[1], req))
             elif op[0] == "settle":
                 await env.settle(op[1])
         await env.settle(12)
@@ -692,6 +847,8 @@ def obs_val(v, canon):
         return ["s", v]
     if isinstance(v, dict):
         return ["d"] + [[k, obs_val(x, canon)] for k, x in v.items()]
+    if isinstance(v, list):
+        return ["l"] + [obs_val(x, canon) for x in v]
     return ["unknown", type(v).__name__]
 
 
@@ -922,7 +1079,7 @@ def run_impl(cases):
     res = common.pmap(_run_one, [c.payload for c in cases], workers=14)
     for c, r in zip(cases, res):
         c.impl = r["impl"]
-        c.line = r["line"]
+        c.line = None if c.payload.get("oracle_only") else r["line"]
         c.payload["_oracle"] = r["oracle"]
         c.payload["_info"] = r["info"]
         c.nontrivial = r["nruns"] > 0
@@ -992,6 +1149,11 @@ def oracle_check(p, obs, an):
         what = f"{sub}: {KINDS[d['kind']]} trigger"
         if len(got) < len(exp):
             dead = ""
+            names = {k for o in log if o["kind"] == "e" for k in o["data"]} | {k for k, _ in d["kwargs"]}
+            if p["legacy"] and names & INTERNAL_B:
+                return f"{what}: trigger dead after a keyword named like a parameter of do_func_call"
+            if names & INTERNAL_A:
+                return f"{what}: run lost for a keyword named like a parameter of call_func"
             if (not p["legacy"] and obs.get("dm_status", {}).get(s["f"]) != "running"
                     and any("Handler is already defined" in e for e in obs.get("errors", []))):
                 dead = " function-not-started(Handler is already defined)"
@@ -1016,6 +1178,25 @@ def oracle_check(p, obs, an):
                 return f"{what}: run without context"
             if r["parent"] != want_parent:
                 return f"{what}: run context parent is not the occurrence's context"
+    # decorator arguments as handed to Home Assistant (subscription encoding, webhook methods / local_only)
+    if not obs.get("errors"):
+        want = [[d["key"], d.get("encoding") or "utf-8"] for f in p["funcs"] for d in f["decs"] if d["kind"] == "m"]
+        got = [list(x) for x in obs.get("encodings", [])]
+        if p["legacy"]:
+            per = {}
+            for k, e in want:
+                per.setdefault(k, set()).add(e)
+            if sorted(k for k, _ in got) != sorted(per) or any(e not in per.get(k, ()) for k, e in got):
+                return f"{sub}: mqtt subscriptions (topic, encoding) differ from the decorators"
+        elif sorted(got) != sorted(want):
+            return f"{sub}: mqtt subscriptions (topic, encoding) differ from the decorators"
+        wdecs = [d for f in p["funcs"] for d in f["decs"] if d["kind"] == "w"]
+        for d in wdecs:
+            if sum(1 for x in wdecs if x["key"] == d["key"]) != 1:
+                continue
+            want_cfg = [True if d.get("local_only") is None else d["local_only"], sorted(d.get("methods") or ["POST", "PUT"])]
+            if obs.get("hooks_cfg", {}).get(d["key"]) != want_cfg:
+                return f"{sub}: webhook registration (local_only, methods) differs from the decorator"
     # emissions
     for e in an["ems"]:
         fname, d, k, j = e["src"]
@@ -1077,11 +1258,17 @@ def verdict(c):
 
 
 F1_SIG = "new: function whose webhook id already has a handler fails to start; all its triggers are dead"
+F2_SIG = "run lost when a keyword is named like an internal parameter (self, func, func_name, ast_ctx)"
+F3_SIG = "legacy: the trigger dies when a keyword is named like a parameter of do_func_call (func, ast_ctx, task_unique, ...)"
 
 
 def classify(c, reason):
     if "function-not-started(Handler is already defined)" in reason:
         return F1_SIG
+    if "run lost for a keyword named like a parameter of call_func" in reason:
+        return F2_SIG
+    if "trigger dead after a keyword named like a parameter of do_func_call" in reason:
+        return F3_SIG
     r = re.sub(r"\d+", "N", reason)
     return r[:110]
 
@@ -1089,6 +1276,44 @@ def classify(c, reason):
 def extra_coverage(cases):
     kinds, filt, stacked, nlog, nem, errs, burst = {}, 0, 0, 0, 0, 0, 0
     fvars, fpassed = {}, {}
+    bnd = {}
+
+    def cnt(k, n=1):
+        bnd[k] = bnd.get(k, 0) + n
+    for c in cases:
+        p = c.payload
+        keys = [d["key"] for f in p["funcs"] for d in f["decs"]]
+        if any(k in ("e0x", "h", "t//a", "+/a/#", "#", "H1") or not k.isascii() for k in keys):
+            cnt("exotic_keys_scenarios")
+        if max([keys.count(k) for k in keys] or [0]) >= 3:
+            cnt("three_or_more_triggers_on_one_key")
+        for f in p["funcs"]:
+            for d in f["decs"]:
+                for fld in ("kwargs_empty", "multiline", "encoding", "methods", "local_only"):
+                    if d.get(fld) is not None and d.get(fld) is not False or (fld == "local_only" and d.get(fld) is False):
+                        cnt("dec_" + fld)
+                if any(v is None for _, v in d["kwargs"]):
+                    cnt("dec_kwargs_none_value")
+        for op in p["ops"]:
+            if op[0] == "m":
+                ok, jv = json_val(op[3])
+                cnt("mqtt_payload_" + ("empty" if op[3] == "" else "nonjson" if not ok else "array" if isinstance(jv, list) else
+                                       "object" if isinstance(jv, dict) else "scalar"))
+            elif op[0] == "w":
+                cnt("webhook_" + ("json" if op[2] else "form") + ("_" + op[5] if len(op) > 5 else ""))
+                if len(op) > 6 and op[6]:
+                    cnt("webhook_query_string")
+            elif op[0] == "wbad":
+                cnt("webhook_empty_json_body")
+            elif op[0] == "e":
+                ks = [k for k, _ in op[2]]
+                if any(k in ("trigger_type", "event_type", "context") for k in ks):
+                    cnt("event_data_reserved_key")
+                if any(k in ("class", "lambda", "None_", "data", "kwargs") for k in ks):
+                    cnt("event_data_keyword_key")
+        nops = [o for o in p["ops"] if o[0] != "settle"]
+        if not any(o[0] == "settle" for o in p["ops"]) and len(nops) >= 3:
+            cnt("bursts_of_three_or_more")
     for c in cases:
         p = c.payload
         for k, v in (p.get("_info", {}).get("passed") or {}).items():
@@ -1109,7 +1334,8 @@ def extra_coverage(cases):
     return {"decorator_kinds": kinds, "decorators_with_filter": filt, "functions_with_stacked_decorators": stacked,
             "occurrences_observed": nlog, "emissions_observed": nem, "burst_only_scenarios": burst,
             "function_start_failures_seen": errs, "filters_using_variable": dict(sorted(fvars.items())),
-            "runs_started_through_filter_on_variable": dict(sorted(fpassed.items()))}
+            "runs_started_through_filter_on_variable": dict(sorted(fpassed.items())),
+            "boundary_values": dict(sorted(bnd.items()))}
 
 
 def shrink(c, reason):
